@@ -2,13 +2,13 @@
 """tools/seed_matrix.py -- markdown table of the seeded changes (from seeded/*/meta.json)"""
 import glob, json, os
 rows = []
-for d in sorted(glob.glob('/verif/seeded/*')):
+for d in sorted(glob.glob('/verif/seeded/*/')):
     m = json.load(open(os.path.join(d, 'meta.json')))
     det = m.get('detected_by')
     if isinstance(det, list):
         det = '; '.join(det[:2])
     summ = (m.get('summary') or '').replace('\n', ' ').replace('|', '/')
-    rows.append('| %s | %s | %s | %s |' % (os.path.basename(d), m.get('check_result'), (det or '').replace('|', '/')[:110], summ[:150]))
+    rows.append('| %s | %s | %s | %s |' % (os.path.basename(d.rstrip('/')), m.get('check_result'), (det or '').replace('|', '/')[:110], summ[:150]))
 print('| change | result of the quick check | detected by (obligation keys / job) | what was changed |')
 print('|---|---|---|---|')
 print('\n'.join(rows))
